@@ -196,7 +196,11 @@ def run_cases(mod, ctx, cases, timeout):
             ctx.slow = sorted(ctx.slow, key=lambda x: -x[0])[:3]
         except CaseTimeout:
             ctx.problems.append({"kind": "timeout", "case": jsonable(ctx.case)})
-        except Exception:
+        except Exception as e:
+            if type(e).__name__ == "LiteralOutOfRange":
+                # raised by the truth-table engine on the formula under test
+                ctx.violation("formula:literal-outside-the-declared-variables", "case %r: %s" % (jsonable(ctx.case), e))
+                continue
             ctx.problems.append({"kind": "harness-error", "case": jsonable(ctx.case),
                                  "traceback": traceback.format_exc(limit=12)})
         finally:
